@@ -353,6 +353,10 @@ def check_events(name, out, pre, post, log, enabled):
     if c['change'] > 1 or c['bound'] > 1:
       return 'more-than-once', '%s at %r received %d change / %d bound events in one call' % (
           type(n).__name__, pre.nodes[nid][2], c['change'], c['bound'])
+    if nid not in may and nid in post.nodes and pre.chain(nid) != post.chain(nid) and any(a in may for a in post.chain(nid)):
+      # the receiver was moved by this very call to a place below a written container (e.g. a batch that stores a
+      # value and then writes into it): what it may receive is not derivable from the state before the call
+      continue
     if nid not in may and nid in post.nodes:
       return 'unaffected-notified', '%s at %r is not an ancestor of a written container but received an event' % (
           type(n).__name__, pre.nodes[nid][2])
